@@ -910,14 +910,14 @@ def finite_diff(f, axis, dx=1.0, method='forward', out=None,
         raise ValueError('`pad_mode` {} not understood'
                          ''.format(pad_mode))
 
-    pad_const = f.dtype.type(pad_const)
+    pad_const = f_arr.dtype.type(pad_const)
 
     if out is None:
         out = np.empty_like(f_arr)
     else:
-        if out.shape != f.shape:
+        if out.shape != f_arr.shape:
             raise ValueError('expected output shape {}, got {}'
-                             ''.format(f.shape, out.shape))
+                             ''.format(f_arr.shape, out.shape))
 
     if f_arr.shape[axis] < 2 and pad_mode == 'order1':
         raise ValueError("size of array to small to use 'order1', needs at "
